@@ -262,8 +262,16 @@ func (c *Ctx) errorAlts(f *ssa.Function, depth int, seen map[*ssa.Function]bool)
 	return out
 }
 
+// isRepoErrorValue: a package-level error value of the repository whose type is cashu.Error (it marshals to
+// {detail, code}); a plain errors.New value of the repository marshals to {} and counts as foreign.
 func isRepoErrorValue(a *Ex) bool {
 	if a.K == "gval" && (strings.HasPrefix(a.S, "cashu.") || strings.HasPrefix(a.S, "cashu/nuts/")) {
+		if a.V != nil {
+			t := a.V.Type().String()
+			if !strings.HasSuffix(t, "cashu.Error") {
+				return false
+			}
+		}
 		return true
 	}
 	return false
